@@ -97,6 +97,28 @@ impl W11 {
 		}
 	}
 
+	/// the same question through the GET proxy middleware (`GET /health` -> `guard_probe`)
+	async fn probe_via_get_proxy(&mut self, after: &str) {
+		if !self.http_enabled {
+			return;
+		}
+		let model = self.in_use();
+		let log0 = self.fix.ctx.log_len();
+		let r = self.fix.http_get_via_proxy("/health").await;
+		settle().await;
+		if model >= self.limit {
+			if r.status != 429 || self.fix.ctx.log_len() != log0 {
+				self.fails.push(("c11/get-proxy-attempt-beyond-limit-not-429".into(), format!("after {after}: {model} in use, limit {}; GET /health through ProxyGetRequestLayer got status {} {:?} and the handler {}", self.limit, r.status, String::from_utf8_lossy(&r.body), if self.fix.ctx.log_len() != log0 { "ran" } else { "did not run" })));
+			}
+		} else {
+			let v: Value = serde_json::from_slice(&r.body).unwrap_or(Value::Null);
+			let want = (self.limit - model - 1) as u64;
+			if r.status != 200 || v["available"].as_u64() != Some(want) {
+				self.fails.push(("c11/get-proxy-slot-count".into(), format!("after {after}: model has {model} in use of {}; GET /health saw status {} {v} (expected available={want})", self.limit, r.status)));
+			}
+		}
+	}
+
 	async fn step(&mut self, k: &K) {
 		let at_limit = self.in_use() >= self.limit;
 		if at_limit {
@@ -388,6 +410,9 @@ impl SubCheck for Connections {
 				w.step(k).await;
 				if w.fails.is_empty() {
 					w.probe(&format!("step #{i} {k:?}")).await;
+				}
+				if w.fails.is_empty() && case.mode != 2 && !case.limit_via_service_builder && i % 3 == 2 {
+					w.probe_via_get_proxy(&format!("step #{i} {k:?}")).await;
 				}
 				if !w.fails.is_empty() {
 					break;
